@@ -24,9 +24,38 @@ fn check_err<T: Ord + Default>(num: T) -> Result<T> {
     Ok(num)
 }
 
+/// Create a pipe whose two ends are close-on-exec.
+///
+/// The flag must be there from the start: with `pipe()` followed by
+/// `fcntl(FD_CLOEXEC)` another thread can fork in between, and the child it
+/// execs then inherits the descriptors.  Ends meant for a child are passed on
+/// with `dup2()`, which clears the flag on the copy.
 pub fn pipe() -> Result<(File, File)> {
     let mut fds = [0 as c_int; 2];
-    check_err(unsafe { libc::pipe(fds.as_mut_ptr()) })?;
+    #[cfg(any(
+        target_os = "linux",
+        target_os = "android",
+        target_os = "freebsd",
+        target_os = "netbsd",
+        target_os = "openbsd",
+        target_os = "dragonfly"
+    ))]
+    check_err(unsafe { libc::pipe2(fds.as_mut_ptr(), libc::O_CLOEXEC) })?;
+    #[cfg(not(any(
+        target_os = "linux",
+        target_os = "android",
+        target_os = "freebsd",
+        target_os = "netbsd",
+        target_os = "openbsd",
+        target_os = "dragonfly"
+    )))]
+    {
+        // no pipe2() here: the window remains on these systems
+        check_err(unsafe { libc::pipe(fds.as_mut_ptr()) })?;
+        for &fd in &fds {
+            fcntl(fd, F_SETFD, Some(FD_CLOEXEC))?;
+        }
+    }
     Ok(unsafe { (File::from_raw_fd(fds[0]), File::from_raw_fd(fds[1])) })
 }
 
